@@ -93,14 +93,27 @@ func shortID(id string) string {
 	return id
 }
 
+// fileNamePart keeps letters, digits, '.', '_' and '-' of an identifier that comes from the board
+// and replaces everything else, so that it cannot name a directory (a '/' made the result file
+// impossible to create after the operation had been logged; "../" would have left the result folder)
+func fileNamePart(id string) string {
+	return strings.Map(func(r rune) rune {
+		switch {
+		case r >= 'a' && r <= 'z', r >= 'A' && r <= 'Z', r >= '0' && r <= '9', r == '.', r == '_', r == '-':
+			return r
+		}
+		return '_'
+	}, id)
+}
+
 func (o *Operation) Filename() (filename string) {
-	filename = fmt.Sprintf("dkg_id_%s", shortID(o.DKGIdentifier))
+	filename = fmt.Sprintf("dkg_id_%s", fileNamePart(shortID(o.DKGIdentifier)))
 
 	if o.IsSigningState() {
 		var payload responses.SigningPartialSignsParticipantInvitationsResponse
 
 		if err := json.Unmarshal(o.Payload, &payload); err == nil {
-			filename = fmt.Sprintf("%s_signing_id_%s", filename, payload.BatchID)
+			filename = fmt.Sprintf("%s_signing_id_%s", filename, fileNamePart(payload.BatchID))
 		}
 	}
 
